@@ -226,6 +226,10 @@ def gen_dc(rng, edge=False):
     c = {"op": "dc", "N": N, "d": d, "conf": conf, "cell": cell, "H": H, "ppp": ppp, "pos": pos, "field": kind, "v": v,
          "A": A, "nb": nb, "edge": edge}
     c.update(extra)
+    if kind != "linear" and rng.random() < 0.25:
+        # an integer-valued field held in an integer array (spins, a displacement field in grid units): divergence and curl are not integers
+        c["v"] = [[str(int(round(Fraction(x) * 2))) for x in row] for row in v]
+        c["intfield"] = True
     return c
 
 
@@ -353,11 +357,11 @@ def real_out(c):
     tmp = tempfile.mkdtemp(prefix="c15-")
     try:
         if op == "pr":
-            v = fl(c["v"])
+            v = common.guise(fl(c["v"]), "pr")
             return {"pr": float(_quiet(V.participation_ratio, v)),
                     "pr_scaled": float(_quiet(V.participation_ratio, v * float(c["scale"])))}
         if op == "nb":
-            v = fl(c["v"])
+            v = common.guise(fl(c["v"]), "nb")
             nbf = os.path.join(tmp, "nb.dat")
             write_nb(nbf, c["nb"], c.get("order"))
             al = _quiet(V.local_vector_alignment, v, nbf)
@@ -368,7 +372,8 @@ def real_out(c):
             write_nb(nbf, c["nb"])
             H = fl(c["H"])
             snap = snapshot(fl(c["pos"]), np.diag(H), H)
-            out = _quiet(V.divergence_curl, snap, fl(c["v"]), np.array([int(x) for x in c["ppp"]]), nbf)
+            vv = fl(c["v"]).astype(np.int64) if c.get("intfield") else common.guise(fl(c["v"]), "dc")
+            out = _quiet(V.divergence_curl, snap, vv, np.array([int(x) for x in c["ppp"]]), nbf)
             if c["d"] == 2:
                 if isinstance(out, tuple):
                     return {"div": [float(x) for x in out[0]], "curl": "unexpected tuple in 2D"}
@@ -377,7 +382,7 @@ def real_out(c):
             return {"div": [float(x) for x in div], "curl": [[float(x) for x in row] for row in curl]}
         if op == "vib":
             w = np.array([float(x) for x in c["w"]])
-            E = fl(c["E"])
+            E = common.guise(fl(c["E"]), "vib")       # scipy.linalg.eigh returns Fortran-ordered eigenvector matrices
             of = os.path.join(tmp, "vib.npy") if c.get("save") else ""
             r = V.vibrability(w, E, c["N"], of)
             res = {"vib": [float(x) for x in r]}
